@@ -4,8 +4,10 @@ Streams: harness/cow.cpp executes statement histories on real poly_p handles in 
 (bounded-exhaustive over three handles + long random histories), built with ASan+UBSan+LSan for every backend;
 the Lean driver replays every prefix in the model of Model/Cow.lean (`cow` handler: model = handle mechanics incl.
 alias classes and use counts, spec = value semantics `runValues`)."""
-import os, re
+import os, re, sys
 import checklib as cl
+sys.path.insert(0, os.path.dirname(os.path.abspath(__file__)))
+import _cow_common as _cc
 
 try:
     import props as _props
@@ -89,7 +91,7 @@ def search(ctx, res, problems):
 
 
 PROP = {
-    "streams": streams, "search": search,
+    "streams": streams, "search": search, "translators": _cc.translators_cow,
     "rule": "every prefix of every generated history is one line (history + everything observable through the real handles: "
             "status, alias class, use_count, values via const reads, result of the last statement, pairwise ==/!=); "
             "bounded-exhaustive: all well-formed sequences of structural statements {construct, copy-construct, move-construct, "
@@ -105,6 +107,7 @@ PROP = {
         "setters, samplers, transforms and arithmetic are abstract functions in the theorems; in the correspondence their values come from the same statement on a plain nfl::poly (the property is relative to value-type polynomials); the PRNG is replaced by a deterministic stream so that both executions draw the same bytes",
         "ASan/UBSan/LSan and __sanitizer_get_current_allocated_bytes for real double frees, use-after-free and leaks (runtime part, not proved about the C++)",
         "single-threaded use only (the header itself notes that detach() is not thread-safe; concurrency is outside C14)",
+        _cc.COW_AST_TB,
     ],
     "assumptions": [
         "histories are well-formed (wfB): constructions only on non-objects, operands are live values, a moved-from handle is only destroyed or the target of a copy/move assignment, indices in range",
